@@ -981,6 +981,10 @@ Inductive fmode : Set := MDefine | MColl | MIndep.
 
 Record varlay : Set := mkVl { vl_isrec : bool; vl_begin : Z; vl_len : Z }.
 
+(* a variable defined in the current define phase: record variable?, in fill mode?, number of elements
+   (of one record for a record variable) *)
+Record newvar : Set := mkNv { nv_isrec : bool; nv_fill : bool; nv_len : Z }.
+
 Record shared : Set := mkSh {
   s_mode : fmode;
   s_rdonly : bool;
@@ -990,8 +994,8 @@ Record shared : Set := mkSh {
   s_numrecs : Z;
   s_indep_open : bool;     (* ncp->independent_fh != MPI_FILE_NULL *)
   s_hdr_chunks : Z;        (* number of pieces the header is written / fetched in *)
-  s_fill_new : bool;       (* enddef: fillerup_aggregate has at least one segment to write (a new fixed-size variable
-                              in fill mode, or a new record variable in fill mode of a file that has records) *)
+  s_newvars : list newvar; (* enddef: the variables that are new in this define phase (all variables of a new file),
+                              in definition order: what fillerup_aggregate looks at *)
   s_exists_err : bool;     (* create with NC_NOCLOBBER on an existing file / open: format error *)
   s_noclobber : bool;      (* root's cmode has NC_NOCLOBBER *)
   s_argflag : bool;        (* def_var_fill: the (agreed) arguments set a fill value (no_fill = 0, fill_value <> NULL) *)
@@ -1315,8 +1319,27 @@ Definition write_NC (c : cfg) (sh : shared) (root : bool) : trace :=
    else []) ++
   (if c_safe c then [(S_write_NC_BC1, TComm)] else []).
 
+(* fillerup_aggregate (ncmpio_fill.c): ONE set_view + write_at_all + set_view for all new variables in fill mode.
+   nVarsFill = number of new variables in fill mode; the number of write segments j counts one segment per new
+   fixed-size fill variable and one per record (of the OLD numrecs; none for a new file) of every new record
+   fill variable -- `j++` is executed "even when count[j] is zero", so j is the SAME on every rank, and the
+   early return tests j (not the rank's own amount buf_len, see fill_buf_len) *)
+Definition fill_old_numrecs (sh : shared) : Z := if s_isnew sh then 0 else s_numrecs sh.
+Definition count_nv (f : newvar -> bool) (l : list newvar) : Z := Z.of_nat (List.length (filter f l)).
+Definition fill_nvars (sh : shared) : Z := count_nv nv_fill (s_newvars sh).
+Definition fill_j (sh : shared) : Z :=
+  count_nv (fun v => nv_fill v && negb (nv_isrec v)) (s_newvars sh) +
+  fill_old_numrecs sh * count_nv (fun v => nv_fill v && nv_isrec v) (s_newvars sh).
+
+(* this rank's share of a variable of len elements: var_len / nprocs (+1 for the first var_len mod nprocs ranks) *)
+Definition fill_share (np rank len : Z) : Z := len / np + (if rank <? len mod np then 1 else 0).
+(* elements this rank writes in fillerup_aggregate (buf_len up to the element sizes) *)
+Definition fill_buf_len (np rank : Z) (sh : shared) : Z :=
+  fold_right (fun v a => (if nv_fill v then (if nv_isrec v then fill_old_numrecs sh else 1) * fill_share np rank (nv_len v) else 0) + a)
+             0 (s_newvars sh).
+
 Definition fill_new (sh : shared) : trace :=
-  if (0 <? s_nvars sh) && s_fill_new sh
+  if (0 <? s_nvars sh) && (0 <? fill_nvars sh) && (0 <? fill_j sh)
   then [(S_fillerup_aggregate_SV1, TFhColl); (S_fillerup_aggregate_WAA1, TFhColl); (S_fillerup_aggregate_SV2, TFhColl)]
   else [].
 
